@@ -113,6 +113,20 @@ def cases(draw):
     return {"fam": fam, "cg": cg, "target": target, "fixed": fixed, "anys": anys, "others": others, "changed": changed, "random": rnd}
 
 
+def right_context_at_window_end(fam, c):
+    """a regex delimiter whose pattern looks at what FOLLOWS the match ($, trailing \\b, look-ahead) in a class with a search window:
+    unpack evaluates it against the end of the window slice, the derived regexp against the real following bytes"""
+    root = ir.root(fam)
+    if not (root.get("opts") or {}).get("search_buffer_length"):
+        return False
+    for f in root["fields"]:
+        if f["k"] == "data" and f["size"][0] == "regex" and f["name"] in c["anys"]:
+            pat = f["size"][1]
+            if b"$" in pat or pat.endswith(b"\\b") or b"(?=" in pat or b"(?!" in pat:
+                return True
+    return False
+
+
 def left_context_any(fam, c):
     for f in ir.root(fam)["fields"]:
         if f["k"] == "data" and f["size"][0] == "regex" and f["name"] in c["anys"] and \
@@ -179,13 +193,16 @@ def run_case(ctx, c):
             # its LEFT (\b, look-behind, ^), in a Data field left as Any
             if missing and left_context_any(fam, c):
                 sig = "regexp-left-context-assertion"
+            elif missing and right_context_at_window_end(fam, c):
+                sig = "regexp-right-context-at-window-end"
             ctx.violation(case(sig=sig,
                                desc="without regexp %d packets, with regexp %d; regexp=%r; first lost=%r" % (len(ts), len(tf), rx.pattern, missing[:1]), regexp=rx.pattern))
         tgt_in = decl.diff_trees(ts[0], c["target"]) is None if ts else False
         if not ts or not tgt_in:
             ctx.count("target_not_selected_by_plain_filter")   # Any(startswith..) semantics etc.: nothing to assert
         elif not rx.match(raw_t):
-            ctx.violation(case(sig="regexp-left-context-assertion" if left_context_any(fam, c) else "regexp-misses-target", desc="regexp %r does not match the target's encoding %r" % (rx.pattern, raw_t), regexp=rx.pattern))
+            ctx.violation(case(sig="regexp-left-context-assertion" if left_context_any(fam, c) else (
+                "regexp-right-context-at-window-end" if right_context_at_window_end(fam, c) else "regexp-misses-target"), desc="regexp %r does not match the target's encoding %r" % (rx.pattern, raw_t), regexp=rx.pattern))
         ctx.count("matches_without_regexp", len(ts))
         # non-triviality
         root = ir.root(fam)
